@@ -2,7 +2,7 @@
 """Prints the DESIGN section 8 table rows for the sub-agent seeds of one round: round 2 = names ending in -C/-D,
 round 3 = -E/-F. Usage: seed_design.py 2|3"""
 import json, glob, sys, re
-suffix = {"1": "AB", "2": "CD", "3": "EF", "4": "GH"}[sys.argv[1]]
+suffix = {"1": "AB", "2": "CD", "3": "EF", "4": "GH", "5": "IJ"}[sys.argv[1]]
 print("| seed | what it needs in order to manifest | caught by | caught before the extensions it prompted |")
 print("|---|---|---|---|")
 for m in sorted(glob.glob('/verif/seeded/C??-[%s]/meta.json' % suffix)):
